@@ -123,6 +123,56 @@ def list_forms():
     return out
 
 
+EXT_PATS = ["@(a|ab)", "@(ab|a)", "+(a|ab)", "*(ab)", "?(a)*(ab)", "@(foo|foobar)", "+(x|xy)", "@(é|éè)", "?(a)b", "*(a|b)c", "@(*.tar|*.tar.gz)",
+            "+([a-c])", "@(a|b)*", "*@(c|bc)", "?(x)", "+(ab|abc)c", "@(a*|ab)", "*(a)b", "@(|a)b", "@(b|ab|abc)"]
+EXT_VALS = ["abc", "ababx", "xyxyz", "foobar.c", "éèé", "x.tar.gz", "aab", "abcabc", "", "b", "ab"]
+
+
+def ext_forms():
+    out = []
+    for val in EXT_VALS:
+        setup = "shopt -s extglob; v=%s" % sq(val)
+        for p in EXT_PATS:
+            for op in ["#", "##", "%", "%%"]:
+                out.append((setup, "${v%s%s}" % (op, p), "remove" + op, {"val": val, "ext": True}))
+            for form in ["/", "//", "/#", "/%"]:
+                out.append((setup, "${v%s%s/Z}" % (form, p), "replace" + form, {"val": val, "ext": True}))
+        out.append((setup.replace("v=", "a=(x ") + " yy)", "${a[@]##@(a|ab)}", "list-ext", {"list": "ext"}))
+    return out
+
+
+RAND_ALPHA = ["a", "b", "A", "B", ".", "-", "_", " ", "/", "*", "?", "é", "\n", "ab", "ba"]
+
+
+def random_forms(rng, n):
+    """Random values x random patterns (the C08 pattern grammar, half of them with extglob) x removal / replacement / case operators."""
+    out = []
+    while len(out) < n:
+        ext = rng.random() < 0.5
+        p = gen_pat.random_pattern(rng, ext=ext, maxpieces=4)
+        if "()" in p or "(|" in p or "|)" in p or "||" in p or "/" in p or "}" in p or "'" in p:
+            continue            # degenerate alternatives (bash's own answers are inconsistent); `/` and `}` would end the operand
+        if "!(" in p:
+            continue            # open finding C08-F2 (negated group in context)
+        val = "".join(rng.choice(RAND_ALPHA) for _ in range(rng.randint(0, 6))).replace("\\n", "\n")
+        if "[:" in p and any(ord(ch) > 127 for ch in val):
+            continue            # open finding C08-F1 (POSIX classes are ASCII-only)
+        setup = ("shopt -s extglob; " if ext else "shopt -u extglob; ") + "v=%s" % sq(val)
+        k = rng.random()
+        if k < 0.55:
+            op = rng.choice(["#", "##", "%", "%%"])
+            out.append((setup, "${v%s%s}" % (op, p), "remove" + op, {"val": val, "ext": ext, "rand": True}))
+        elif k < 0.9:
+            form = rng.choice(["/", "//", "/#", "/%"])
+            out.append((setup, "${v%s%s/%s}" % (form, p, rng.choice(["", "Z", "ZZ"])), "replace" + form, {"val": val, "ext": ext, "rand": True}))
+        else:
+            op = rng.choice(["^", "^^", ",", ",,"])
+            if "*" in p or len(p) > 6:
+                continue
+            out.append((setup, "${v%s%s}" % (op, p), "casepat", {"val": val, "ext": ext, "rand": True}))
+    return out
+
+
 def make_case(setup, word, tag, meta):
     block = "%s\nargdump -t q.{i} -- \"%s\"\necho \"@s.{i} $?\"\nargdump -t u.{i} -- %s\necho \"@t.{i} $?\"" % (setup, word, word)
     if meta.get("assigns"):
@@ -150,7 +200,45 @@ def region(c):
         return "transform-A-unset"
     if w.startswith("${v/") and ("&" in w):
         return "patsub-ampersand"
+    import re
+    if c["tag"].startswith("replace") and re.search(r"[@?*+!]\(", w):
+        return "extglob-in-replacement"          # open findings C06-F7 / C06-F8
+    if c["tag"].startswith("replace") and re.search(r"\[[!^]\]", w):
+        # bash 5.2 quirk, not a finding: in ${v/pat/rep} a bracket expression that starts `[!]` / `[^]` never matches (the same
+        # pattern matches in case / [[ ]] / ${v#pat}); brush treats it like everywhere else
+        return "bash-quirk-negated-bracket-with-leading-bracket-in-replacement"
+    if c["tag"] == "casepat":
+        pat = re.sub(r"^\$\{v(\^\^|,,|\^|,)", "", w)[:-1]
+        if not (len(pat) == 1 or re.fullmatch(r"\\.|\[(\\.|\[:\w+:\]|[^\]])+\]", pat)):
+            return "case-modification-multichar-pattern"      # open finding C06-F9
     return None
+
+
+def definitional_want(c):
+    tag = c["tag"]
+    if not tag.startswith("remove") or c["meta"].get("val") is None:
+        return None
+    val, w = c["meta"]["val"], c["word"]
+    op = tag[len("remove"):]
+    pat = w[len("${v" + op):-1]
+    if "[[:" in pat or (pat.startswith("\\") and not c["meta"].get("rand")):
+        return None
+    try:
+        if op in ("#", "##"):
+            return gen_pat.remove_prefix(val, pat, op == "##", bool(c["meta"].get("ext")))
+        return gen_pat.remove_suffix(val, pat, op == "%%", bool(c["meta"].get("ext")))
+    except Exception:
+        return None
+
+
+def quoted_value(obs):
+    q = [x for x in (obs or []) if x[0] == "@Aq"]
+    if not q:
+        return None
+    parts = q[0][1].strip().split(" ")
+    if parts[0] != "1":
+        return None
+    return bytes.fromhex(parts[1]).decode("utf-8", "replace") if parts[1] != "-" else ""
 
 
 def judge_definitional(run, c, b):
@@ -171,12 +259,8 @@ def judge_definitional(run, c, b):
     if parts[0] != "1":
         return True
     got = bytes.fromhex(parts[1]).decode("utf-8", "replace") if parts[1] != "-" else ""
-    try:
-        if op in ("#", "##"):
-            want = gen_pat.remove_prefix(val, pat, op == "##")
-        else:
-            want = gen_pat.remove_suffix(val, pat, op == "%%")
-    except Exception:
+    want = definitional_want(c)
+    if want is None:
         return True
     run.count("definitional_checks")
     if got != want:
@@ -200,7 +284,7 @@ def run(run):
                        "regions of open findings (multi-byte length/offset, @u, @A of unset, & in replacement) are skipped and watched by canaries"]
     from . import diffrun
     diffrun.run_canaries(run, prelude="")
-    forms = scalar_forms(rng, quick) + list_forms()
+    forms = scalar_forms(rng, quick) + list_forms() + ext_forms() + random_forms(rng, int((4000 if quick else 120000) * scale))
     cases = [make_case(*f) for f in forms]
     skipped = 0
     keep = []
@@ -213,7 +297,7 @@ def run(run):
     cases = keep
     if quick:
         rng.shuffle(cases)
-        cases = cases[: int(24000 * scale)]
+        cases = cases[: int(30000 * scale)]
     run.count("cases", len(cases))
 
     def on_agree(c, b):
@@ -221,6 +305,12 @@ def run(run):
         judge_definitional(run, c, b)
 
     def on_diff(c, b, h, ck, stderr):
+        want = definitional_want(c)
+        if not ck and want is not None and quoted_value(b) == want and quoted_value(h) is not None and quoted_value(h) != want:
+            # bash itself departs from the definition here (shortest/longest matching prefix/suffix by the reference matcher) and
+            # brush returns the definitional answer: the references disagree, not judged
+            run.count("oracle_ambiguous_bash_vs_definition")
+            return
         kind = "crash:" + ck if ck else ("no-result" if b is None else diffkind(b, h))
         sig = "C06|%s|%s|%s" % (c["tag"], kind, c["word"][:40])
         run.violation(sig, {"kind": "expansion", "setup": c["setup"], "word": c["word"], "brush": b, "bash": h, "crash": ck,
